@@ -1,5 +1,6 @@
 import MW.Inv.Reach
 import MW.Inv.WorldReach
+import MW.Staking.Interface
 /-!
 # C06 — Unstake batch lifecycle and timing
 -/
@@ -248,5 +249,15 @@ exactly at the deadline (and at any sub-second offset of it) it passes -/
 example : batchDue (Batch.new 1 0 1000) 999 = false ∧ batchDue (Batch.new 1 0 1000) 1000 = true
     ∧ ({ timeNs := 1000 * 1000000000 + 999999999, height := 0, txIndex := none, contract := "", chainPrefix := "" } : Env).seconds = 1000 := by
   decide
+
+/-- the statements of this file quantify over every message the staking contract accepts: the `ExecuteMsg` the source
+declares (table regenerated from /repo's `msg.rs` on every run) has exactly the variants, fields and types of the
+model's `ExecMsg`, and the contract exports exactly the modelled entry points.  A message or entry point added to the
+source — which no generated history would exercise — breaks this theorem -/
+theorem messages_are_the_modelled_ones :
+    MW.Generated.Interface.staking_execute = MW.Interface.model_staking_execute
+    ∧ (∀ m : MW.Staking.ExecMsg, MW.Interface.execTag m ∈ MW.Interface.names MW.Generated.Interface.staking_execute)
+    ∧ MW.Generated.Interface.staking_entry_points = ["execute", "instantiate", "migrate", "query", "reply", "sudo"] :=
+  ⟨MW.Interface.staking_execute_eq, MW.Interface.staking_execute_covered.2, MW.Interface.staking_entry_points_eq⟩
 
 end MW.Props.C06
